@@ -352,6 +352,7 @@ static void vf_free(void *p)
 	free(p);
 }
 void vf_alloc_install(void) { jwt_set_alloc(vf_malloc, vf_free); }
+void vf_lfree(void *p) { vf_free(p); }
 long vf_alloc_live(void) { return a_live; }
 long vf_alloc_total(void) { return a_total; }
 void vf_alloc_reset_counter(void) { a_total = 0; a_failed = 0; a_fail_at = 0; }
